@@ -240,6 +240,9 @@ func resolveKey(info *types.Info, fd *ast.FuncDecl, e ast.Expr) string {
 // exactly once in fd and that assignment is its declaration (v := expr), so
 // that the definition holds wherever v is in scope.
 func soleDefinition(info *types.Info, fd *ast.FuncDecl, v *types.Var) ast.Expr {
+	if _, isPseudo := pseudoOf[v]; isPseudo {
+		return pseudoFieldInit(info, v) // a field of a struct the function built itself (pseudo.go)
+	}
 	var def ast.Expr
 	n := 0
 	declares := false
